@@ -203,6 +203,8 @@ def replay(f):
                         old_v = tr.graph.nodes[n_].get(sk)
                         tr.graph.nodes[n_][sk] = [-1.0] * len(old_v) if isinstance(old_v, (list, tuple)) else -1.0
             seg0 = tr.segmentation.copy()
+            if inp.get("was_disabled"):
+                tr.disable_features([key])
             tr.enable_features([key])
             if ob == "C09.iou_bulk":
                 ok, why = iou_ok(tr)
